@@ -595,6 +595,9 @@ func TestGenerated(t *testing.T) {
 	rapid.Check(t, func(t *rapid.T) {
 		o := j5sgen.DefaultOpts()
 		o.OddNames = true
+		// rules the compiler has no target for leave an option that is present and
+		// empty, (buf.validate.field) = {}: a value like any other to the printer
+		o.UndocumentedRules = true
 		b, classes := j5sgen.Draw(t, o)
 		c := printCase{J5S: b.Render()}
 		fails, n := check(c)
